@@ -1,0 +1,18 @@
+//go:build verif
+
+package syntax
+
+// Hook for the verification harness (leg c03-bm): read access to the Boyer-Moore tables of a
+// BmPrefix and a constructor for arbitrary literals.  Add-only; nothing here is used by the engine.
+
+// VerifTables returns the tables built by newBmPrefix (the slices are the live ones, not copies:
+// after a pattern rune in U+0080..U+00FF negativeASCII and negativeUnicode[0] are the same array).
+func (b *BmPrefix) VerifTables() (positive, negativeASCII []int, negativeUnicode [][]int, lowASCII, highASCII rune) {
+	return b.positive, b.negativeASCII, b.negativeUnicode, b.lowASCII, b.highASCII
+}
+
+// VerifNewBmPrefix is newBmPrefix on a private copy of pattern (newBmPrefix lower-cases its argument
+// in place when caseInsensitive is set).  nil when newBmPrefix gives up (a rune beyond U+FFFF).
+func VerifNewBmPrefix(pattern []rune, caseInsensitive, rightToLeft bool) *BmPrefix {
+	return newBmPrefix(append([]rune{}, pattern...), caseInsensitive, rightToLeft)
+}
